@@ -6,6 +6,15 @@ import units
 from framework import RuleResult
 
 
+def _is_int_ctor(prog, c):
+    """A value-module constructor taking one i64 (today value::new_int)."""
+    import anchors
+    g = prog.fns.get(c.res)
+    return g is not None and g.module.startswith(anchors.value_module(prog)) \
+        and g.arg_count == 1 and len(g.locals) > 1 and g.locals[1] == "i64" \
+        and "SourcedValue" in g.locals[0]
+
+
 def rule_R15_2(ctx):
     prog = ctx.prog
     r = RuleResult("R15.2", "`->len()` reports a byte length",
@@ -16,7 +25,7 @@ def rule_R15_2(ctx):
         if not f.module.startswith("builtins") or f.from_expansion:
             continue
         for c in f.calls():
-            if c.is_ptr or not (c.res or "").endswith("value::new_int"):
+            if c.is_ptr or not _is_int_ctor(prog, c):
                 continue
             n += 1
             o = pv.origins(f, c.args[0], ())
